@@ -1072,6 +1072,17 @@ pub fn serialize_full(r: &ctap2::Response) -> Vec<u8> {
     buf.to_vec()
 }
 
+/// Serialise into a buffer that already holds `prior` (non-zero sentinel bytes): the result must
+/// not depend on what the buffer held before the call.
+pub fn serialize_dirty(r: &ctap2::Response, prior_len: usize) -> Vec<u8> {
+    let mut buf: HVec<u8, 7609> = HVec::new();
+    for i in 0..prior_len.min(7609) {
+        let _ = buf.push(0xC1 ^ (i as u8 & 0x3E));
+    }
+    r.serialize(&mut buf);
+    buf.to_vec()
+}
+
 /// The C02 oracle: status byte + exactly the expected map (order-insensitive), or the status
 /// byte alone when nothing is set / the kind has no parameters.
 pub fn check_encoding(kind: Kind, model: &Value, out: &[u8]) -> Result<(), String> {
